@@ -70,7 +70,20 @@ def descriptions(inp):
         "suit-manifest-component-id": ["INSTLD_MFST", {"RFC4122_UUID": {"namespace": "nordicsemi.com", "name": "nRF9280_sample_app"}}],
         "suit-install": [{"suit-directive-override-parameters": {"suit-parameter-uri": "#fw"}}]},
         env={"suit-integrated-payloads": {"#fw": "C0FFEE"}})
-    return {"B0": b0, "B1": b1, "B2": b2, "B3": b3, "B1alt": b1alt, "B3alt": b3alt, "B9": b9, "child2": child2}
+    # H1..H3: three hierarchies of ONE shape whose in-place dependency descriptions differ in content only (anything
+    # remembered about "the dependency at this place" from an earlier creation would be another one's)
+    hs = {}
+    for k in (1, 2, 3):
+        leaf = gen.child_env(seq=50 + k, extra={"suit-integrated-payloads": {"#leaf": "%02x" % k * (3 + k)}})
+        mid = gen.child_env(seq=60 + k, extra={"suit-integrated-dependencies": {"#leaf.suit": leaf}, "suit-integrated-payloads": {"#m": "%02x" % (16 * k)}})
+        hs[f"H{k}"] = gen.minimal(man={"suit-manifest-sequence-number": 70 + k, "suit-install": [{"suit-directive-override-parameters": {
+            "suit-parameter-uri": "#mid.suit", "suit-parameter-image-digest": gen.digest("cose-alg-sha-256", {"envelope": copy.deepcopy(mid)}),
+            "suit-parameter-image-size": {"envelope": copy.deepcopy(mid)}}}]},
+            env={"suit-integrated-dependencies": {"#mid.suit": mid, "#other.suit": gen.child_env(seq=80 + k)}})
+    # P7: dependencies AND seven payloads on one level (extraction order = envelope order, whatever the string hashes are)
+    p7 = gen.minimal(env={"suit-integrated-dependencies": {"#radio.suit": copy.deepcopy(radio)},
+                          "suit-integrated-payloads": {f"#img_{c}.bin": ("%02x" % (i + 1)) * (i + 2) for i, c in enumerate("gcafbed")}})
+    return {"B0": b0, "B1": b1, "B2": b2, "B3": b3, "B1alt": b1alt, "B3alt": b3alt, "B9": b9, "child2": child2, "P7": p7, **hs}
 
 
 def prepare(inp):
@@ -87,7 +100,7 @@ def prepare(inp):
     from suit_generator.input_output import InputOutputMixin
     with open(os.path.join(inp, "child2.suit"), "wb") as fh:
         fh.write(InputOutputMixin.prepare_suit_data(copy.deepcopy(ds["child2"])))
-    for n in ("B0", "B1", "B2", "B3", "B1alt", "B3alt", "B9"):
+    for n in ("B0", "B1", "B2", "B3", "B1alt", "B3alt", "B9", "P7", "H1", "H2", "H3"):
         with open(os.path.join(inp, f"{n}.json"), "w", encoding="utf-8") as fh:
             json.dump(ds[n], fh)
         with open(os.path.join(inp, f"{n}.yaml"), "w", encoding="utf-8") as fh:
@@ -214,6 +227,14 @@ def op_cache_envelope(inp, work):
     return {"cache": open(o, "rb").read(), "env": open(e, "rb").read()}
 
 
+def op_cache_envelope_many(inp, work):
+    from suit_generator import cmd_cache_create
+    o, e = os.path.join(work, "cm.bin"), os.path.join(work, "cm.suit")
+    cmd_cache_create.main(cache_create_subcommand="from_envelope", output_file=o, eb_size=8, input_envelope=os.path.join(inp, "P7.suit"),
+                          output_envelope=e, omit_payload_regex=None, dependency_regex=".*[.]suit")
+    return {"cache": open(o, "rb").read(), "env": open(e, "rb").read()}
+
+
 def op_cache_merge(inp, work):
     from suit_generator import cmd_cache_create
     o = os.path.join(work, "cm.bin")
@@ -314,6 +335,10 @@ OPS["mpi-merge"] = op_mpi_merge
 OPS["cache-payloads"] = op_cache_payloads
 OPS["cache-envelope"] = op_cache_envelope
 OPS["cache-merge"] = op_cache_merge
+OPS["cache-envelope-many"] = op_cache_envelope_many
+for _k in (1, 2, 3):
+    OPS[f"create-H{_k}-json"] = op_create(f"H{_k}", "json")
+OPS["create-B3alt-yaml"] = op_create("B3alt", "yaml")
 OPS["sign-ed25519"] = op_sign_ed
 OPS["sign-es256"] = op_sign_es
 OPS["encrypt"] = op_encrypt
